@@ -441,6 +441,22 @@ def zoo(tier='quick'):
     Z.append(single('sim_mm', mm=True))
     Z.append(single('sim_multi', firm='multi'))
     Z.append(single('pc', gov='tre_cb'))
+    # a household with its own (sector-level) tax rate next to one taxed at the tax flow's rate
+    p = single('sim_caps_own_taxrate', caps=True, firm='fm1')
+    p.post(lambda c: c['CA.HH'].AddVariable('TaxRate', 'sector-level tax rate', '0.3'))
+    p.params.append(('CA.HH', 'TaxRate'))
+    Z.append(p)
+    p = single('sim_caps_own_taxrate_rev', caps=True, firm='fm1')
+    p.post(lambda c: c['CA.CAP'].AddVariable('TaxRate', 'sector-level tax rate', '0.35'))
+    p.params.append(('CA.CAP', 'TaxRate'))
+    Z.append(p)
+    # one transfer variable paid to two different sectors, and the same flow registered twice
+    p = single('sim_transfer_twice', caps=True, firm='fm1')
+    gift(p, 'CA.GOV', 'CA.HH', name='TRANSFER')
+    gift(p, 'CA.GOV', 'CA.CAP', name='TRANSFER')
+    gift(p, 'CA.HH', 'CA.CAP', name='TITHE', inc_src=True, inc_dst=True)
+    gift(p, 'CA.HH', 'CA.CAP', name='TITHE', inc_src=True, inc_dst=True)
+    Z.append(p)
     Z.append(single('pc_exp_caps_margin', gov='tre_cb', hh='hhexp', caps=True, firm='fm1'))
     Z.append(single('pc_multi', gov='tre_cb', firm='multi'))
     # intra-zone gifts (two countries, same currency), with the four income-flag combinations
